@@ -30,6 +30,7 @@ var c07SSO = mkSpace("authn", []fieldDim{
 	{"Flate", []string{"", "stored", "huffman", "fast", "flushed", "chunks"}},
 	{"CType", []string{"", "charset", "mixed-case", "charset-quoted"}},
 	{"HTTP", world.HTTPShapes},
+	{"Sibling", world.SiblingKinds},
 	{"Optional", []string{"", "all"}},
 	{"Frac", []string{"", "0", "3", "9"}},
 	{"Relay", []string{"", "none", "spacey"}},
@@ -51,6 +52,7 @@ var c07SSO = mkSpace("authn", []fieldDim{
 	{"IdPFlag", []string{"", "true", "1", "false"}},
 	{"IssuerCfg", []string{"", "static-path", "host", "host-path"}},
 	{"SSOEp", []string{"", "custom", "custom-noslash", "external"}},
+	{"MetaEp", []string{"", "external"}},
 	{"ACS", []string{"", "redirect-only", "post-only", "redirect-default+post", "three", "query-url"}},
 	{"Host", []string{"", "other.example:8443"}},
 })
@@ -61,6 +63,7 @@ var c07SubDims = []string{"Sign", "KeyInfo", "CertText", "SignImpl", "Pct", "Spa
 // the lexical / wire-level sub-space, also explored as a full product (crossed with transport, signature kind and prefix style)
 var c07LexDims = []string{"Lex", "Transport", "Sign", "B64Wrap", "Flate", "CType", "Prefix"}
 var c07HTTPDims = []string{"HTTP", "Transport", "Sign", "IssuerCfg", "Host", "SSOEp"}
+var c07SiblingDims = []string{"Sibling", "Transport", "Sign", "IssuerCfg", "Host", "SSOEp", "MetaEp", "Dest"}
 
 var spaceyRelay = "a b+c%41&d=e/f?g~h"
 
@@ -151,6 +154,7 @@ var c07Logout = mkSpace("logout", []fieldDim{
 	{"Lex", lexVals},
 	{"Wire", []string{"", "b64-76", "b64-64crlf", "ctype-charset", "flate-stored", "flate-flushed", "flate-chunks"}},
 	{"HTTP", world.HTTPShapes},
+	{"Sibling", world.SiblingKinds},
 	{"Session", []string{"", "two"}},
 	{"Relay", []string{"", "none"}},
 	{"NOOA", []string{"", "+1us", "+1y", "max", "y2262-", "y2262+", "y2300", "y3000"}},
@@ -192,6 +196,7 @@ var c07AQ = mkSpace("attribute-query", []fieldDim{
 	{"Decl", []string{"", "yes"}},
 	{"Lex", lexVals},
 	{"HTTP", world.HTTPShapes},
+	{"Sibling", world.SiblingKinds},
 	{"CType", []string{"", "text-xml-bare", "soap12", "soapaction"}},
 	{"Dest", []string{"", "absent"}},
 	{"Subject", []string{"", "bob"}},
@@ -456,7 +461,7 @@ func runC07(ctx Ctx) int {
 		addS(vec)
 		return true
 	})
-	for _, names := range [][]string{c07LexDims, c07HTTPDims} {
+	for _, names := range [][]string{c07LexDims, c07HTTPDims, c07SiblingDims} {
 		lex := &devx.Space{Name: "lex"}
 		var lidx []int
 		for _, n := range names {
